@@ -38,6 +38,20 @@ and reg), StartUp.defer before / after start-up, SystemAction._do_action,
 NotificationCenter.clear (also from inside a notification);
 AbstractDispatcher.free and ServerAction._do_action are observed only
 (counters observed_*: outside the statement).
+
+Round 8: (1) argument templates - every evaluation of a template predicate is
+recorded and must have been given the message's own argument at the predicate's
+position (never padding for a missing argument or another value); predicates
+that raise TypeError for non-OSC values make a foreign value visible as an
+exception in the dispatch too.  (2) error path followed by continued use:
+responder creation that fails (receive port held by a socket of the harness,
+invalid port numbers, invalid paths; every creation route, also inside
+callbacks and concurrently with dispatch in histrt), followed by retry after the
+port became free / while it is still taken, messages to the port the library
+opened (also over real UDP: the canary follows on the same socket), free, port
+closed with main.close_udp_port: a failed construction leaves no responder in
+the class listing, a dispatcher or CmdPeriod and its function is never invoked;
+the port of a responder just created receives a loop-back datagram (probe).
 """
 
 from vf.common import iter_cases, case_rng, h64, split
@@ -50,7 +64,12 @@ RULE = ("hist: seeded histories (5-55 ops) over <=10 responders on 4-9 paths tha
         "inside callbacks - and responder functions that raise on their k-th "
         "invocation (22 % of responders) with messages/bundles whose arguments are shorter, longer "
         "or different from templates; non-trivial = at least one expected invocation, "
-        "one enabled responder that must stay silent and one state-changing op. "
+        "one enabled responder that must stay silent and one state-changing op; "
+        "6 % of the creations cannot succeed (receive port bound by a harness socket, "
+        "port out of range / negative / not an int, empty / non-str path), 85 % of the "
+        "port-in-use failures are retried (70 % after the port was released); template "
+        "predicates record what they are evaluated with, three of them raise TypeError "
+        "for non-OSC values. "
         "pat: (pattern, 12 addresses) groups, pattern derived from an address by "
         "generalising characters into ? * [] [!] ranges {,} then truncated/extended; "
         "non-trivial = pattern has a wildcard construct and the group contains both a "
@@ -93,10 +112,25 @@ ASSUMPTIONS = [
     "message scheduled behind the datagram under test (SystemClock queue is FIFO "
     "for equal times, property C09)",
     "enable() after free() is not generated (documentation of free: 'when you are "
-    "finished using this object'); None/predicate template items beyond the end of "
-    "a message (and on absent MIDI fields) and responders whose state an earlier "
-    "callback of the same dispatch changed are left open; a one-shot responder "
-    "stays one-shot when its function is replaced",
+    "finished using this object'); WHETHER a responder fires whose template has "
+    "None/predicate items beyond the end of a message (and on absent MIDI fields) is "
+    "left open (sclang ignores such items, the library rejects non-None ones, the "
+    "documentation is silent), but a predicate is 'evaluated with the corresponding "
+    "message's value at the same position' (documentation of arg_template): an "
+    "evaluation with anything that is not the argument at that position of a message "
+    "of the datagram is a violation, and so is whatever it raises into the dispatch; "
+    "responders whose state an earlier callback of the same dispatch changed are left "
+    "open; a one-shot responder stays one-shot when its function is replaced",
+    "failed creation: only arguments for which construction cannot succeed are used "
+    "(a port bound by another socket on the address the library binds, ports outside "
+    "0..65535 or not int, '' / None / int / bytes as path); which exception is raised "
+    "is not judged; a creation expected to fail that succeeds is freed and counted "
+    "(observed_creation_expected_to_fail_succeeded/*); the residue check reads the "
+    "private tables (class listing, dispatcher.wrapped_funcs, CmdPeriod._actions) by "
+    "identity of the function, the later-invocation check is black box; extra ports "
+    "are closed with main.close_udp_port after the harness saw the receive thread "
+    "running (stop() of an interface whose thread has not started does nothing: "
+    "outside C18)",
     "after a responder function raised, responders of that message not registered "
     "before it on its path are left open (the library abandons the dispatch of that "
     "message); the raising invocation counts, a fired one-shot stays spent",
@@ -131,6 +165,11 @@ MIN_COUNTERS = {
     'quick': {'hist_messages': 3000, 'invocations_checked': 2000,
               'order_pairs_checked': 200, 'one_shots_fired': 100,
               'in_callback_ops_total': 100, 'messages_shorter_than_template': 50,
+              'template_predicate_calls_checked': 3000,
+              'predicate_items_beyond_message': 300,
+              'failed_creations': 1000, 'failed_creation_residue_checks': 1000,
+              'failed_creation_retries_succeeded': 300,
+              'recv_ports_opened_by_creation': 300, 'opened_port_probes': 300,
               'injected_callback_faults': 300, 'registry_removed_before_its_turn': 200,
               'registry_real_runs_with_actions_elsewhere': 2000,
               'registry_injected_faults': 1000, 'cmdperiod_residue_checks': 500,
@@ -163,6 +202,11 @@ MIN_COUNTERS = {
                  'fuzz_valid_optional_type_tags': 10000, 'midi_messages': 200000,
                  'midi_one_shots_fired': 10000, 'tcp_frames': 10000,
                  'messages_shorter_than_template': 1500,
+                 'template_predicate_calls_checked': 80000,
+                 'predicate_items_beyond_message': 8000,
+                 'failed_creations': 25000, 'failed_creation_residue_checks': 25000,
+                 'failed_creation_retries_succeeded': 7000,
+                 'recv_ports_opened_by_creation': 7000, 'opened_port_probes': 7000,
                  'pattern_pairs': 1000000, 'pattern_pairs_expected_match': 100000,
                  'fuzz_datagrams': 200000, 'fuzz_malformed': 80000,
                  'fuzz_canaries_ok': 200000, 'parser_line_events': 5000000,
